@@ -34,7 +34,7 @@ FORMS = {
     'if': (1, ()), 'ife': (2, ()),
     'wh': (1, (0,)), 'whe': (2, (0,)),
     'forx': (1, (0,)), 'forxe': (2, (0,)), 'forl': (1, (0,)),
-    'te': (2, ()), 'tf': (2, ()), 'tex': (2, ()), 'teef': (4, ()),
+    'te': (2, ()), 'tf': (2, ()), 'tfp': (2, ()), 'tex': (2, ()), 'teef': (4, ()),
     'wn': (1, ()), 'ws': (1, ()), 'wx': (1, ()),
     'mt': (2, ()), 'mtx': (2, ()), 'ms': (2, ()), 'mc': (2, ()),
 }
@@ -215,6 +215,10 @@ class _R:
             e(ind, 'except Exception as x:' if f == 'tex' else 'except Exception:'); self.body(ind + 1, s[2], f + '.1')
         elif f == 'tf':
             e(ind, 'try:'); self.trybody(ind + 1, s[1], f + '.0')
+            e(ind, 'finally:'); self.body(ind + 1, s[2], f + '.1')
+        elif f == 'tfp':    # plain try/finally: NO interleaved conditional raises (used by the nested-finally family,
+            #                 whose subject is the break/continue path; keeps its input space small)
+            e(ind, 'try:'); self.body(ind + 1, s[1], f + '.0')
             e(ind, 'finally:'); self.body(ind + 1, s[2], f + '.1')
         elif f == 'teef':
             e(ind, 'try:'); self.trybody(ind + 1, s[1], f + '.0')
